@@ -8,6 +8,7 @@ and converts between BDDs and truth tables at the *bit level* of `dd`
 game checks do not depend on the code checked by C07).
 """
 import itertools
+import zlib
 import logging
 
 logging.disable(logging.CRITICAL)
@@ -74,16 +75,74 @@ class Arena:
         self.backend = backend
         aut = trl.Automaton()
         set_backend(aut, backend)
-        if decl.get('const'):
-            aut.declare_constants(**decl['const'])
-        for g in ('env', 'sys'):
-            if decl.get(g):
-                aut.declare_variables(**decl[g])
+        # history independence: for about a third of the declarations
+        # (chosen by a hash of the declaration, so that a replay rebuilds the
+        # same history) the automaton is USED before it is complete: the
+        # first group of identifiers is declared, primed, stepped and solved
+        # on, and only then are the other identifiers declared.  Nothing the
+        # library caches at first use may outlive the later declarations.
+        key = repr([(g, sorted(decl.get(g, {}).items()))
+                    for g in ('const', 'env', 'sys')]) + backend
+        self.history = 'warm' if zlib.crc32(key.encode()) % 3 == 0 else 'plain'
+        if self.history == 'warm':
+            self._warm_up(aut, decl)
+        else:
+            if decl.get('const'):
+                aut.declare_constants(**decl['const'])
+            for g in ('env', 'sys'):
+                if decl.get(g):
+                    aut.declare_variables(**decl[g])
         aut.varlist['env'] = list(decl.get('env', {}))
         aut.varlist['sys'] = list(decl.get('sys', {}))
         aut.prime_varlists()
         self.aut = aut
         self.refresh()
+
+    @staticmethod
+    def _warm_up(aut, decl):
+        """Declare the component's identifiers, use the automaton (priming,
+        one-step operators, image, both solvers), then declare the rest."""
+        import contextlib
+        import io
+        import omega.games.gr1 as gr1
+        import omega.symbolic.fixpoint as fx
+        import omega.symbolic.prime as prm
+        first = dict(decl.get('sys', {}))
+        if first:
+            aut.declare_variables(**first)
+            aut.varlist['env'] = list()
+            aut.varlist['sys'] = list(first)
+            aut.prime_varlists()
+            n = sorted(first)[0]
+            if first[n] == 'bool':
+                u = aut.add_expr(n)
+            else:
+                u = aut.add_expr(f'{n} = {first[n][0]}')
+            aut.action['env'] = aut.true
+            aut.action['sys'] = aut.true
+            aut.win['<>[]'] = [aut.false]
+            aut.win['[]<>'] = [u]
+            had = [a for a in ('moore', 'plus_one') if hasattr(aut, a)]
+            saved = {a: getattr(aut, a) for a in had}
+            aut.moore, aut.plus_one = True, True
+            with contextlib.redirect_stdout(io.StringIO()):
+                prm.prime(u, aut)
+                prm.is_state_predicate(u)
+                fx.step(aut.true, aut.true, u, aut)
+                fx.ee_image(u, aut)
+                gr1.solve_streett_game(aut)
+                gr1.solve_rabin_game(aut)
+            for a in ('moore', 'plus_one'):
+                if a in saved:
+                    setattr(aut, a, saved[a])
+                else:
+                    delattr(aut, a)
+            del aut.action['env'], aut.action['sys']
+            aut.win.clear()
+        if decl.get('const'):
+            aut.declare_constants(**decl['const'])
+        if decl.get('env'):
+            aut.declare_variables(**decl['env'])
 
     def refresh(self):
         """(Re)compute valuations of each group from the automaton."""
@@ -213,7 +272,13 @@ def random_decl(rng, max_states=32, allow_const=True):
         for i in range(ns):
             decl['sys'][f'y{i}' if ns > 1 else 'y'] = rng.choice(KINDS)
         if allow_const and rng.random() < 0.25:
-            decl['const']['k'] = rng.choice(['bool', (0, 1), (-1, 0)])
+            # the same name is a constant in one game and a variable in
+            # another one of the same process (nothing may be remembered by
+            # identifier name across contexts)
+            free = [c for c in ('k', 'k', 'x', 'y')
+                    if c not in decl['env'] and c not in decl['sys']]
+            decl['const'][rng.choice(free)] = rng.choice(
+                ['bool', (0, 1), (-1, 0)])
         n = 1
         for g in decl.values():
             for k in g.values():
